@@ -91,9 +91,18 @@ Fixpoint request_all (room : nat) (subs : list N) (st : N) (resps : list (list a
     end
   end.
 
-(* all answers of one frame name the desired state? *)
-Definition frame_ok (st : N) (ans : list answer) : bool :=
-  forallb (fun a => al_state (fst a) =? st) ans.
+(* all answers of one frame name the desired state, none with the error indication? *)
+Definition ans_ok (st : N) (a : answer) : bool := negb (al_error (fst a)) && (al_state (fst a) =? st).
+Definition frame_ok (st : N) (ans : list answer) : bool := forallb (ans_ok st) ans.
+
+(* the answers of a frame are looked at in order; the first that is not "requested state, no
+   error" decides: an error indication ends the wait with Err(StateTransition), another state
+   means "not yet" *)
+Fixpoint frame_error (st : N) (ans : list answer) : bool :=
+  match ans with
+  | [] => false
+  | a :: r => if al_error (fst a) then true else if al_state (fst a) =? st then frame_error st r else false
+  end.
 
 (* one is_state call.  Returns (verdict, remaining answers, frames sent, frames used).
    [used] counts frames so far in the whole wait; the timeout is noticed when a frame's answer
@@ -114,6 +123,7 @@ Fixpoint is_state (fuel : nat) (c : tcfg) (subs : list N) (resps : list (list an
         if (t_limit c <=? S used)%nat then (Err TTimeout, more, [frame], S used)
         else if frame_ok (t_desired c) ans then
           let '(r, rs, fs, u) := is_state f c rest more (S used) in (r, rs, frame :: fs, u)
+        else if frame_error (t_desired c) ans then (Err TStateTransition, more, [frame], S used)
         else (Ok false, more, [frame], S used)
       end
     end
